@@ -16,6 +16,20 @@ import (
 const repoRoot = "/repo"
 
 var smtLogPath string
+var startPrefix []dec
+
+func parseDecs(s string) []dec {
+	var out []dec
+	for _, p := range strings.Split(s, ".") {
+		if len(p) < 2 {
+			continue
+		}
+		var v uint64
+		fmt.Sscanf(p[1:], "%d", &v)
+		out = append(out, dec{p[0], v})
+	}
+	return out
+}
 
 func verifRoot() string {
 	if v := os.Getenv("VERIF_ROOT"); v != "" {
@@ -40,6 +54,7 @@ func defaultConfig() *runConfig {
 		MaxPermute:    3,
 		MaxPaths:      400000,
 		SolverKind:    "z3-new",
+		FallbackKind:  "cvc5",
 		SolverTimeout: 10000,
 	}
 }
@@ -79,10 +94,13 @@ func cmdRun(args []string) int {
 	fs.IntVar(&cfg.MaxPaths, "maxpaths", cfg.MaxPaths, "")
 	fs.IntVar(&cfg.MaxDecisions, "maxdec", cfg.MaxDecisions, "")
 	fs.StringVar(&cfg.SolverKind, "solver", cfg.SolverKind, "")
+	fs.StringVar(&cfg.FallbackKind, "fallback", cfg.FallbackKind, "")
 	fs.IntVar(&cfg.SolverTimeout, "timeout", cfg.SolverTimeout, "")
 	smtlog := fs.String("smtlog", "", "")
+	prefix := fs.String("prefix", "", "initial decision prefix, e.g. c3.b1.")
 	fs.Parse(args)
 	smtLogPath = *smtlog
+	startPrefix = parseDecs(*prefix)
 	t0 := time.Now()
 	p, err := loadForModule(*module, []string{*pkg})
 	if err != nil {
